@@ -332,6 +332,9 @@ class BVContext:
                 if c > 0 and c & (c - 1) == 0:
                     return a.and_(BV.const(c - 1))
             return None
+        if k == "proj" and t[2] in (0, 1) and t[1][0] == "call" and t[1][2] == ("builtin", "divmod") and len(t[1][3]) == 2 and not t[1][4]:
+            # divmod(a, b)[0] = a // b, divmod(a, b)[1] = a % b
+            return self.to_bv(("bin", "//" if t[2] == 0 else "%", t[1][3][0], t[1][3][1]))
         if k == "un" and t[1] == "~":
             a = self.to_bv(t[2])
             if a is not None and a.is_const():
@@ -397,6 +400,15 @@ class BVContext:
             if f is None:
                 return None
             return f if c[1] == "!=" else f ^ 1
+        if c[0] == "cmp" and c[1] in ("!=", "==") and is_const(c[3]) and c[3][1] == 1 and not isinstance(c[3][1], bool):
+            # a value that has one bit only (x % 2, x & 1, (x >> k) & 1) compared with 1
+            bv1 = self.to_bv(c[2])
+            if bv1 is None or bv1.neg_ones or any(b != 0 for b in bv1.bits[1:]):
+                return None
+            f = bv1.bit(0) if bv1.bits else 0
+            if f is None:
+                return None
+            return f if c[1] == "==" else f ^ 1
         if c[0] == "not":
             f = self.bool_form(c[1])
             return None if f is None else f ^ 1
